@@ -196,7 +196,7 @@ def codec_check(prop, part, level, rule, assumptions=(), gens=("v2", "root"), de
 C01 = codec_check("C01", "C01", "model_checking",
     rule="bounded-exhaustive enumeration: every wrapper record of the schema universe (one per field type of the grammar x {required, optional, defaulted} + include chains + unions) x every value with at most one deviation from the base value over the full per-type alphabets (thorough: also every pair of field deviations over the reduced alphabets) x 5 wire formats is encoded and decoded by the real generated bindings; states = distinct values, transitions = encode/decode calls; a class is (outcome kind, format)")
 
-C03 = codec_check("C03", "C03", "model_checking",
+_C03_codec = codec_check("C03", "C03", "model_checking",
     rule="differential check against an independent reference codec pair (mc/ref/refjson, mc/ref/refror2) over the C01 case space: (lib-to-ref) every library encoding must parse under the strict reference parser of its format/context and denote the same abstract value; (ref-to-lib) the reference encoding of every value, and for the reduced alphabets every document variant (key permutations, unknown fields, whitespace, alternative escapes), must be accepted by the library reader and yield the value; states = values, transitions = encode or decode calls; a class is (direction, outcome, format, variant family)",
     assumptions=["the reference codecs are my reading of the Rest.li 2.0 wire rules: keys are escaped like strings; bytes/fixed are strings of code points <= U+00FF in JSON and ROR2; a null union is JSON null / the empty map in ROR2",
                  "request/response envelopes are checked by the wire-level checks, not here"])
@@ -368,7 +368,7 @@ def C17(sc, tier, replay, t0):
             for name, cmd in (("handler+client", [rb_wire, "-gen", gen, "-part", "C17race", "-tier", tier]), ("d2 resolver", [rb_d2, "-gen", gen, "-part", "race"])):
                 e = dict(D.goenv(), GOMAXPROCS=gmp, GORACE="halt_on_error=0", **env)
                 p = subprocess.run(cmd, env=e, stdout=subprocess.PIPE, stderr=subprocess.STDOUT, text=True)
-                races = p.stdout.count("WARNING: DATA RACE")
+                races = p.stdout.count("WARNING: DATA RACE") + p.stdout.count("REGISTRY-OUTCOME:")
                 race_runs.append({"gen": gen, "target": name, "GOMAXPROCS": int(gmp), "races": races, "exit": p.returncode})
                 if races or p.returncode not in (0, 66):
                     site = "unknown"
@@ -391,7 +391,7 @@ def C17(sc, tier, replay, t0):
         extra_cov={"race_pass": race_runs})
 
 
-C09 = codec_check("C09", "C09", "model_checking", gens=("v2",), maprot=True, genrots=(1, 6),
+_C09_codec = codec_check("C09", "C09", "model_checking", gens=("v2",), maprot=True, genrots=(1, 6),
     rule="exhaustive at the seam where order enters: every permutation of keyWriter call order (n<=5, thorough 6) for WriteMap on all five writers x 4 key sets (prefix pairs, case, non-ASCII, empty, reserved characters) x {flat, nested} x {no exclusion, one key excluded}; every permutation of parameter order through BuildQueryParams; every insertion order of keys into string / int64 / bytes / hash-colliding key sets; outputs must be byte-identical across orders with keys, parameters and ids ascending; Equal values (copies, map-insertion-order rebuilds) must encode identically in all 5 formats, also after a warm-up of unrelated encodes; the whole pool of map-bearing values is encoded in one process per Go map-iteration start (runtime overlay; 16 starts quick, 64 thorough) and the digests must agree; supplementary: 64 re-encodings from freshly built maps inside each process; states = key sets / values, transitions = encode calls",
     assumptions=["Go map iteration order is owned through a runtime overlay (lib/c12.py maprot_overlay): one process per iteration start VERIF_MAPROT with fixed hash seeds; one global start per process is enumerated, not independent starts per iteration",
                  "v2 only, as the property states"])
@@ -423,14 +423,15 @@ def C20(sc, tier, replay, t0):
         D.finish = orig_finish
     merged, kw = captured["merged"], captured["kw"]
     import zlib
-    # schema sets with hand-written files (v2) and, in both generations, a fixed eighth (thorough: half) of all
+    # schema sets with hand-written files (v2), the sets whose types are relocated or renamed (namespace cycles, name
+    # clashes: regeneration must reproduce their files too) and, in both generations, a fixed eighth (thorough: half) of all
     # schema sets for the clauses about entries the generator does not own
     share = 2 if tier == "thorough" else 8
     subs, failures, samples, notes, capped = c12.run_part_a(
-        sc, tier, ["v2", "root"], select=lambda e: bool(e.get("Files")) or zlib.crc32(e["ID"].encode()) % share == 0,
+        sc, tier, ["v2", "root"], select=lambda e: bool(e.get("Files")) or "cycle" in e["ID"] or "clash" in e["ID"] or zlib.crc32(e["ID"].encode()) % share == 0,
         rots=[0, 1, 2, 3] if tier == "thorough" else [0, 1], universes=False)
     for name, sd in subs.items():
-        if name.endswith("/compile") or name.endswith("/vet") or name.endswith("/deterministic"):
+        if name.endswith("/compile") or name.endswith("/vet"):
             continue
         sd = dict(sd)
         merged["sub"]["generator-" + name] = sd
@@ -440,7 +441,7 @@ def C20(sc, tier, replay, t0):
         kind = f["sig"].split(" ")[1] if " " in f["sig"] else ""
         # the sampled sets without hand-written files are here for the clauses about entries the generator does not
         # own; whether the generator can handle them at all is C12's business (and C12's known findings)
-        if not ("Ct" in item or "custom" in item) and kind not in ("regenerate", "user-files", "package-root-layout"):
+        if not ("Ct" in item or "custom" in item) and kind not in ("regenerate", "user-files", "package-root-layout", "deterministic"):
             continue
         f = dict(f)
         f["sig"] = "generator " + f["sig"]
@@ -452,7 +453,7 @@ def C20(sc, tier, replay, t0):
     return D.finish("C20", tier, "model_checking", merged, t0, **kw)
 
 
-def plus_wire(prop, codec, part, rule_suffix, doc, deadline_q=600, deadline_t=3000):
+def plus_wire(prop, codec, part, rule_suffix, doc, deadline_q=600, deadline_t=3000, gens=("v2", "root")):
     """prop = its codec-harness check + a wire-harness part on resources-quick; the two reports are merged."""
     def run(sc, tier, replay, t0):
         if replay:
@@ -476,7 +477,7 @@ def plus_wire(prop, codec, part, rule_suffix, doc, deadline_q=600, deadline_t=30
         merged, kw = captured["merged"], captured["kw"]
         uni = "resources-quick"  # the R-universe's resources are enough here
         reports = []
-        for gen in ("v2", "root"):
+        for gen in gens:
             binary = D.build_with_bindings(sc, gen, "wire", uni, resources=True)
             reports += D.run_shards(binary, gen, tier, max(1, D.NCPU // 2), os.path.join(sc.dir, "out-" + part), extra_args=["-part", part],
                                     env={"VERIF_UNIVERSE": uni}, deadline=(deadline_t if tier == "thorough" else deadline_q), tag="-" + part)
@@ -506,3 +507,11 @@ C14 = plus_wire("C14", _C14_fn, "C14W", "; (wire level) every method of every re
 
 C15 = plus_wire("C15", _C15_url, "C15W", "; (wire level) every method of every resource (top-level, sub-resources two and three levels deep, below a simple resource) through the generated clients, whose RootResource() feeds the resolver, with bases /ctx, /ctx/, /a/b, a context path ending in a sub-resource's name, and context paths ending in the root resource's name (server deployed at the path without it): the request reaches the method it names with the arguments given",
                 "C15 = URL construction over the base-URL grammar (harness c15, hand-written resource path) + generated resource paths end to end (wire harness, part C15W).")
+
+
+C03 = plus_wire("C03", _C03_codec, "C03W", "; (wire level) every keyed collection x {create, batch_create} x the full key alphabet x {no context path, /ctx/} through generated client, router and mock: X-RestLi-Id and element ids are the created key in ROR2 header form, the Location header and element locations are the request path followed by the key escaped for a URL path",
+               "C03 = codec conformance against the reference codecs (codec harness) + id / location envelope of create responses (wire harness, part C03W).")
+
+
+C09 = plus_wire("C09", _C09_codec, "C09W", "; (wire level, v2) every method of every resource x every argument position x its reduced alphabet through the generated clients: the query of the request that goes out lists its parameters in strictly ascending byte order of their names and the ids of batch requests in ascending encoded order",
+               "C09 = canonical serialization at codec level (codec harness, map-iteration overlay) + canonical request queries of generated clients (wire harness, part C09W).", gens=("v2",))
